@@ -98,6 +98,9 @@ class Tracker:
 
     # ------------------------------------------------------------ classification
     def is_table(self, e: Optional[ast.AST]) -> bool:
+        if isinstance(e, ast.Name) and e.id in self.sc.defs and e.id not in self.sc.params:
+            # a local alias of the table: `running = self._group_meta_tasks_running` (never a copy of it)
+            return self.P.of(e) == META_RUN and not self.P.is_copy(e) and len(self.sc.defs[e.id]) == 1
         return isinstance(e, ast.Attribute) and self.P.of(e) == META_RUN
 
     def key_of(self, e: ast.AST, env: Dict[str, str]) -> Optional[str]:
@@ -116,6 +119,8 @@ class Tracker:
                 return "T"
             if env.get(e.id) == "aO":
                 return "OTHER"
+            if (env.get(e.id) or "").startswith("aL:"):
+                return "L:" + env[e.id][3:]  # another name for that local collection
             if self.is_local(e.id):
                 return "L:" + e.id
         if isinstance(e, ast.Call) and isinstance(e.func, ast.Name) and e.func.id in ("set", "list", "tuple", "frozenset", "sorted") and len(e.args) == 1:
@@ -455,8 +460,23 @@ class Tracker:
         if isinstance(v, ast.Call) and isinstance(v.func, ast.Attribute) and v.func.attr == "pop" and not v.args:
             outs = self.call(n, v, set(places), dict(env), unk, t)
             return outs
+        if isinstance(t, ast.Name) and isinstance(v, ast.IfExp):
+            # `dest = a if cond else b`: the arm the condition selects for the tracked task (both when it cannot be told)
+            tv = self.truth(v.test, frozenset(places), env)
+            outs = []
+            for arm, want in ((v.body, True), (v.orelse, False)):
+                if tv is None or tv == want:
+                    outs += self.assign(n, t, arm, set(places), dict(env), unk)
+            return outs
         if isinstance(t, ast.Name):
             name = t.id
+            if isinstance(v, ast.Name) and v.id != name and (self.coll(v, env) or "").startswith("L:") and env.get(v.id) not in ("g0", "other"):
+                # a second name for a local collection (not a copy of it)
+                for p in list(places):
+                    if p.endswith(":" + name):
+                        places.discard(p)
+                env[name] = "aL:" + self.coll(v, env)[2:]
+                return [(places, env, unk)]
             # key / alias bindings
             if isinstance(v, ast.Subscript) and self.is_table(v.value):
                 k = self.key_of(v.slice, env)
@@ -508,6 +528,8 @@ class Tracker:
                     unk = True
                     self.unknown.append((n, f"cannot tell whether a running spawner is in `{ast.unparse(v)[:50]}`"))
                 return [(places, env, unk)]
+            if self.is_table(v) and self.is_table(ast.Name(id=name, ctx=ast.Load())):
+                return [(places, env, unk)]  # a local alias of the table itself (recognised wherever it is used)
             # anything else bound to a name we track
             if any(p.endswith(":" + name) for p in places) or name in env:
                 for p in list(places):
